@@ -112,10 +112,10 @@ class Ctx:
             return self.add(rule, where, node, "ok", ok_reason, **kw)
         return self.add(rule, where, node, "unknown", f"construct no longer has its confirmed form ({what}): cannot decide statically whether the behaviour is kept", **kw)
 
-    def form(self, rule, where, node, text, confirmed, essential, ok_reason, bad_reason, **kw):
+    def form(self, rule, where, node, text, confirmed, essential, ok_reason, bad_reason, forbidden=(), **kw):
         """Three-way verdict on the (canonical) text of a construct: one of the `confirmed` forms -> ok; a form lacking one of the
         `essential` tokens (each token may be a tuple of alternatives) -> violation (the behaviour cannot be implemented without it);
-        anything else -> unknown (a refactoring the analyser has not been taught)."""
+        a form matching a `forbidden` regex -> violation (a part that defeats the behaviour); anything else -> unknown (a refactoring the analyser has not been taught)."""
         text = text or ""
         if text in confirmed:
             return self.add(rule, where, node, "ok", ok_reason, **kw)
@@ -126,6 +126,10 @@ class Ctx:
                 missing.append(alts[0])
         if missing:
             return self.add(rule, where, node, "violation", f"{bad_reason} (found `{text[:120]}`, lacking {missing})", **kw)
+        import re as _re
+        hit = [rx for rx in forbidden if _re.search(rx, text)]
+        if hit:  # a part that defeats the behaviour is present (e.g. the raw value can reach the product)
+            return self.add(rule, where, node, "violation", f"{bad_reason} (found `{text[:160]}`, containing /{hit[0]}/)", **kw)
         return self.add(rule, where, node, "unknown", f"construct `{text[:120]}` is neither the confirmed form nor lacks an essential part: cannot decide statically", **kw)
 
     def analysed(self, f: Func):
